@@ -577,8 +577,15 @@ func checkGuards(r *Reporter, p *Prog, rule string, rows []GuardRow) {
 								}
 							}
 						default:
-							a.bad = append(a.bad, fmt.Sprintf("%s: %s.%s is accessed outside a method of %s, whose mutex guards it", p.posStr(x.Pos()), gf.row.Type, gf.field, gf.row.ViaRecvType))
-							return
+							// a function that is not a method of the owner but reaches one through its own
+							// state (`r.notifier.mutex.Lock()` in a method of a handle that records its
+							// owner): the owner's mutex it takes is the one wanted
+							if w := ownerMutexTaken(info, fd, gf.row); w != "" {
+								want = w
+							} else {
+								a.bad = append(a.bad, fmt.Sprintf("%s: %s.%s is accessed outside a method of %s, whose mutex guards it", p.posStr(x.Pos()), gf.row.Type, gf.field, gf.row.ViaRecvType))
+								return
+							}
 						}
 					}
 					if held[want] >= need && len(stack) >= 1 {
@@ -1603,4 +1610,42 @@ func throughPointer(info *types.Info, e ast.Expr) bool {
 			return false
 		}
 	}
+}
+
+// ownerMutexTaken: the one mutex of row's owner type (GuardRow.ViaRecvType) that fd locks itself,
+// as a canonical path ("" if it locks none or several).
+func ownerMutexTaken(info *types.Info, fd *ast.FuncDecl, row *GuardRow) string {
+	found := map[string]bool{}
+	ast.Inspect(fd.Body, func(n ast.Node) bool {
+		if _, isLit := n.(*ast.FuncLit); isLit {
+			return false
+		}
+		c, ok := n.(*ast.CallExpr)
+		if !ok {
+			return true
+		}
+		op, path := lockOp(info, c)
+		if op != "Lock" && op != "RLock" {
+			return true
+		}
+		se, ok := ast.Unparen(c.Fun).(*ast.SelectorExpr)
+		if !ok {
+			return true
+		}
+		mx, ok := ast.Unparen(se.X).(*ast.SelectorExpr)
+		if !ok || mx.Sel.Name != row.Mutex {
+			return true
+		}
+		if t := info.TypeOf(mx.X); t != nil && shortTypeName(typeName(t)) == row.ViaRecvType {
+			found[canonPath(path)] = true
+		}
+		return true
+	})
+	if len(found) != 1 {
+		return ""
+	}
+	for k := range found {
+		return k
+	}
+	return ""
 }
